@@ -262,10 +262,12 @@ _REGEX = ["fire", "Fire", "FIREFOX", "^a", "b$", "x|y", "\\d+", ".", "ü", "Ü",
           # plain words whose case-insensitive match depends on Unicode case folding (what re.IGNORECASE does), not on str.lower()
           # patterns that only mean what they say as a pattern of THEIR OWN (groups are numbered, flags are set, names are taken
           # per pattern): capturing groups, numbered back-references and conditionals, named groups, inline flags
+          # white space is part of a pattern, at its ends too
+          " vim", "Mail ", " ", "\tx", "fox ", " - ", "\n",
           "(fire|chrome)fox|(git)hub", "\\b(\\w)\\1", "(a)?b(?(1)c|x)", "(?P<w>\\w)(?P=w)", "(?i)github", "(?x) f i r e ", "(x)|(y)\\2",
           "(\\w+) \\1", "((a)|b)+\\2?c", "(?i:vim) notes", "()", "(^)a",
           "\u03bcTorrent", "\u00b5torrent", "ISI", "\u03bb\u03bf\u03b3\u03bf\u03c2", "Con\u017fole", "\u212aelvin", "STRASSE", "\u0130stanbul"]
-_VALS = ["the the fox", "aab", "bx", "vim vim", "firefox", "Firefox", "FIREFOX - github", "abc", "ABC", "xb", "vim", "VIM notes", "ünï", "ÜBER", "日本語", "", "42",
+_VALS = ["gvim - notes.txt", "Mail-Inbox", "two words", "Mail inbox", "a\tx", "the the fox", "aab", "bx", "vim vim", "firefox", "Firefox", "FIREFOX - github", "abc", "ABC", "xb", "vim", "VIM notes", "ünï", "ÜBER", "日本語", "", "42",
          "e", "straße", "y", 42, None, ["firefox"], {"a": "firefox"}, True, 3.5, "abc\nxb", "line one\nVIM", "xb\n",
          "\u00b5Torrent 3.6", "\u039cTORRENT.EXE", "\u0131s\u0131 pompas\u0131", "\u039b\u039f\u0393\u039f\u03a3\u0391", "CONSOLE", "kelvin", "stra\u00dfe", "istanbul"]
 _DKEYS = ["app", "title", "url", "k", "$category", "$tags"]
